@@ -316,7 +316,15 @@ func (c *Connection) SendJSON(v interface{}) error {
 
 // Close closes the connection
 func (c *Connection) Close() error {
-	c.hub.unregister <- c
+	// Close may be called from a message handler, which runs on the hub's own
+	// goroutine - the only receiver of the unbuffered unregister channel - so
+	// it must never wait for the hub: hand the request over if the hub is
+	// ready, otherwise deliver it asynchronously.
+	select {
+	case c.hub.unregister <- c:
+	default:
+		go func() { c.hub.unregister <- c }()
+	}
 	return c.conn.Close()
 }
 
